@@ -14,6 +14,10 @@
      width     level output width (slog.SetLevelOutputWidth)
      minw      minimal message width (slog.SetMessageMinimalWidth)
      reg       custom severity -> "none" | registration form (slog.RegisterLevel ... options)
+     col       severity (of ColSevs) -> level colour configuration [set, fg, bg] of Encoder.tla:
+               NoLC = never touched by SetLevelColors (built-in table / colours of the
+               registration), else what the last slog.SetLevelColors(sev, fg, bg) put there -
+               {no foreground, a foreground} x {nothing, a background colour, a text attribute}
      mode      logger slot -> "json" | "logfmt" | "color"   (what JSONMode()/ColorMode() report)
      named     logger slot -> the logger has a name           (what Name() reports)
    plus the constant Own[l], the attributes every logger of slot l is created with.
@@ -33,6 +37,8 @@
      Switch(k, v)      some logger is switched to DebugLevel / TraceLevel in way v (the library
                        then turns the process-wide switch on);  SwitchOff  resets both.
      SetWidth(w), SetMinW(m)
+     SetColors(v, f, b)  slog.SetLevelColors(v, <a colour of class f>, <a colour of class b>) for a
+                       built-in or custom severity v of ColSevs - process-wide, like the widths.
 
    EXPECTATION.  Expect(st, l, r) = the abstract record of Encoder.tla an Emit must produce
    (format = st.mode[l], name, widths, testing from st; message and attributes Own[l] \o r.args
@@ -44,11 +50,12 @@
    such sequence.  No operator that states an expectation reads it:
      EmitsAreSilent       (action property) an Emit or GC step leaves st - and with it the
                           expectation of every future Emit - unchanged;
+     ColoursOfOthersDoNotMatter  the expectation ignores the colours set for other severities;
      OthersDoNotMatter    the expectation for one logger ignores the modes of the others;
      SwitchesDoNotMatter  ... and the debug / trace switches;  TypeOK, OblLive.
    EncoderHistMech.tla adds the hidden state an implementation keeps between records (pooled
    formatter residue, attribute pool, memoised tags) and shows which disciplines keep it from
-   leaking (invariant NoLeak) and that four sloppy ones do leak (witnesses).
+   leaking (invariant NoLeak) and that five sloppy ones do leak (witnesses).
 
    OBLIGATIONS (variable obl) are a DRIVER device of the exhaustive machine only: after a
    configuration event the next event is an Emit that observes it (the reconfigured logger
@@ -72,6 +79,7 @@ CONSTANTS Loggers,                \* logger slots, 1..n
           Widths, MinWidths,
           SwitchKinds, SwitchVias, \* {"debug","trace"} x ways of switching a logger's level
           GCs,                    \* numbers of consecutive collections a GC event may make
+          ColSevs, ColFgs, ColBgs, \* severities whose colours may be set; classes of fg ("none","fg") / bg ("none","bg","attr")
           ProcKinds,              \* subset of BOOLEAN: testing
           HistDepth
 
@@ -100,14 +108,18 @@ CfgStep(s, l, f) ==
               \* a child always has a name (a random one when none is given)
               !.named[l] = IF f.how = "set" THEN @ ELSE IF Detached(f) THEN InitNamed[l] ELSE TRUE]
 RegGuard(s, c) == s.reg[c] = "none"
-RegStep(s, c, g) == [s EXCEPT !.reg[c] = g]
+\* a registration that carries colours replaces what SetLevelColors may have put there before
+RegStep(s, c, g) == [s EXCEPT !.reg[c] = g,
+                              !.col = IF c \in ColSevs /\ g \in {"titlecolor", "tags", "tagsbg"} THEN [@ EXCEPT ![c] = NoLC] ELSE @]
+ColStep(s, v, f, b) == [s EXCEPT !.col[v] = [set |-> TRUE, fg |-> f, bg |-> b]]
+LcOf(s, sev) == IF sev \in ColSevs THEN s.col[sev] ELSE NoLC
 SwitchStep(s, k) == IF k = "debug" THEN [s EXCEPT !.dbg = TRUE] ELSE [s EXCEPT !.trc = TRUE]
 SwitchOffStep(s) == [s EXCEPT !.dbg = FALSE, !.trc = FALSE]
 
 \* ---- the expectation: a function of the state and the record class only
 ExpRecOf(s, l, sev, msg, attrs, caller) ==
     [fmt |-> s.mode[l], testing |-> s.testing, name |-> [has |-> s.named[l], cls |-> <<>>], sev |-> sev,
-     caller |-> caller, width |-> s.width, minw |-> s.minw, msg |-> msg, attrs |-> attrs]
+     caller |-> caller, width |-> s.width, minw |-> s.minw, msg |-> msg, attrs |-> attrs, lc |-> LcOf(s, sev)]
 ExpRec(s, l, r) == ExpRecOf(s, l, r.sev, r.msg, Own[l] \o r.args, r.caller)
 \* Where the bracketed tag (colored) / the level member (JSON, logfmt) of a severity may come
 \* from.  The harness names the sources the printed text is equal to: "builtin" (the library's
@@ -148,13 +160,15 @@ Observes(o, s, l, r) ==
     CASE o.k = "logger" -> l = o.x
       [] o.k = "sev"    -> RecClasses[r].sev = o.x
       [] o.k = "color"  -> s.mode[l] = "color"
+      [] o.k = "sevcolor" -> RecClasses[r].sev = o.x /\ s.mode[l] = "color"
       [] o.k = "err"    -> HasErr(l, r)
       [] OTHER          -> TRUE
 MkObl(o, s) == IF \E l \in Loggers, r \in RcIds : Observes(o, s, l, r) THEN o ELSE NoObl
 
 HInit ==
     /\ st \in {[testing |-> t, dbg |-> FALSE, trc |-> FALSE, width |-> 3, minw |-> 36,
-                reg |-> [c \in Customs |-> "none"], mode |-> InitMode, named |-> InitNamed] : t \in ProcKinds}
+                reg |-> [c \in Customs |-> "none"], col |-> [v \in ColSevs |-> NoLC],
+                mode |-> InitMode, named |-> InitNamed] : t \in ProcKinds}
     /\ hist = <<>>
     /\ obl = NoObl
     /\ flat = <<>>
@@ -171,6 +185,8 @@ Switch(k, v)    == v \in SwitchVias /\ Config(SwitchStep(st, k), [k |-> "err", x
 SwitchOff       == (st.dbg \/ st.trc) /\ Config(SwitchOffStep(st), NoObl)
 SetWidth(w)     == w # st.width /\ Config([st EXCEPT !.width = w], [k |-> "color", x |-> 0])
 SetMinW(m)      == m # st.minw /\ Config([st EXCEPT !.minw = m], [k |-> "color", x |-> 0])
+SetColors(v, f, b) == /\ st.col[v] # [set |-> TRUE, fg |-> f, bg |-> b]
+                      /\ Config(ColStep(st, v, f, b), [k |-> "sevcolor", x |-> v])
 Emit(l, r)      == /\ Observes(obl, st, l, r)
                    /\ obl' = NoObl
                    /\ hist' = Push(hist, <<l, RecClasses[r].cls>>)
@@ -189,6 +205,7 @@ HNext ==
     \/ SwitchOff
     \/ \E w \in Widths : SetWidth(w)
     \/ \E m \in MinWidths : SetMinW(m)
+    \/ \E v \in ColSevs, f \in ColFgs, b \in ColBgs : SetColors(v, f, b)
 
 HSpec == HInit /\ [][HNext]_hvars
 
@@ -197,6 +214,7 @@ TypeOK ==
     /\ st.width \in 1..5 /\ st.minw >= 16
     /\ \A l \in Loggers : st.mode[l] \in Modes /\ st.named[l] \in BOOLEAN
     /\ \A c \in Customs : st.reg[c] \in RegForms \cup {"none"}
+    /\ \A v \in ColSevs : st.col[v] \in LevelColours
     /\ Len(hist) <= HistDepth
 \* an obligation never dead-locks the driver: some Emit can discharge it
 OblLive == obl = NoObl \/ \E l \in Loggers, r \in RcIds : Observes(obl, st, l, r)
@@ -216,6 +234,11 @@ OthersDoNotMatter ==
 SwitchesDoNotMatter ==
     \A l \in Loggers, r \in RcIds, d \in BOOLEAN, t \in BOOLEAN :
         Expect([st EXCEPT !.dbg = d, !.trc = t], l, r) = Expect(st, l, r)
+
+\* ... nor on the colours configured for ANOTHER severity
+ColoursOfOthersDoNotMatter ==
+    \A l \in Loggers, r \in RcIds : \A v \in ColSevs \ {RecClasses[r].sev}, c \in LevelColours :
+        Expect([st EXCEPT !.col[v] = c], l, r) = Expect(st, l, r)
 
 DumpAlias == [t |-> st.testing]
 =============================================================================
